@@ -322,8 +322,7 @@ def simpleTyF : Nat → PyTy → Bool
     match ty with
     | .int | .str | .bool | .none | .float => true
     | .literal _ => true
-    | .union [x, .none] => simpleTyF n x
-    | .union [.none, x] => simpleTyF n x
+    | .union ts => (match PyTy.optionalOf ts with | some x => simpleTyF n x | Option.none => false)
     | _ => false
 
 /-- per annotation of the universe `U`: whatever `structTy` does at it is correct, and everything it
@@ -343,7 +342,7 @@ def tyOK (E : Env) (bad U : List PyTy) (ty : PyTy) : Bool :=
         | Option.none => true)
      | .union ts =>
        (match PyTy.optionalOf ts with
-        | some x => inU U x
+        | some x => inU U x && !x.isUnionTy
         | Option.none =>
           ts.all PyTy.isAttrsOrNone &&
           (match E.disambFor ty with
